@@ -35,6 +35,7 @@ type c08Case struct {
 	Exists [3]bool   `json:"exists"` // downstream probe answers
 	Fail   string    `json:"fail"`   // "", "reject" (main call rejected), "reject+drop" (rejected while a drop at >= t is recorded)
 	DropLv int       `json:"drop_level"`
+	Ctor   bool      `json:"seeded_through_constructor"` // drop times handed to NewChannelWriter as the start-up snapshot (restart) instead of written into the tables
 }
 
 type c08Decision int
@@ -110,10 +111,33 @@ func c08Seed(w *ChannelWriter, lv int, o c08Obj, db, coll, part string) {
 func c08Run(cs c08Case) (string, string) {
 	const db, coll, part = "db1", "c1", "p1"
 	fd := &fakeDown{}
-	w, _ := newVerifWriter(fd, "", nil)
 	levels := c08Levels(cs.Group, cs.Kind)
-	for lv := 0; lv < levels; lv++ {
-		c08Seed(w, lv, cs.Objs[lv], db, coll, part)
+	var w *ChannelWriter
+	if cs.Ctor {
+		// the restart path: the snapshot of dropped objects (GetAllDroppedObj shape) seeds the tables
+		snap := map[string]map[string]uint64{util.DroppedDatabaseKey: {}, util.DroppedCollectionKey: {}, util.DroppedPartitionKey: {}}
+		for lv := 0; lv < levels; lv++ {
+			if cs.Objs[lv].D == 0 {
+				continue
+			}
+			switch lv {
+			case 0:
+				_, dk := util.GetDBInfoKeys(db)
+				snap[util.DroppedDatabaseKey][dk] = cs.Objs[lv].D
+			case 1:
+				_, dk := util.GetCollectionInfoKeys(coll, db)
+				snap[util.DroppedCollectionKey][dk] = cs.Objs[lv].D
+			case 2:
+				_, dk := util.GetPartitionInfoKeys(part, coll, db)
+				snap[util.DroppedPartitionKey][dk] = cs.Objs[lv].D
+			}
+		}
+		w, _ = newVerifWriter(fd, "", snap)
+	} else {
+		w, _ = newVerifWriter(fd, "", nil)
+		for lv := 0; lv < levels; lv++ {
+			c08Seed(w, lv, cs.Objs[lv], db, coll, part)
+		}
 	}
 	mainKind := opCallKind[cs.Kind]
 	if cs.Group == "event" {
@@ -238,7 +262,7 @@ func TestVerifC08Table(t *testing.T) {
 		fmt.Println("REPLAY-OK")
 		return
 	}
-	res.Rule = "total decision table: for each operation kind with governing levels L in {1,2,3} (events create/drop collection: db; create/drop partition: db+collection; flush/index/load/release collection: db+collection; load/release partitions: db+collection+partition) every combination per level of recorded create time x drop time in {absent,10,15,20,25,30} with t=20 (all 13 weak orderings x 4 presence patterns) x downstream probe answers {exists, absent} per level x main-call answer {ok, rejected, rejected while a drop at t+3 is recorded at level l}; observed applied/skipped/failed compared with the reference cascade; non-trivial = cases whose outcome is skip, or a probe decided"
+	res.Rule = "total decision table: for each operation kind with governing levels L in {1,2,3} (events create/drop collection: db; create/drop partition: db+collection; flush/index/load/release collection: db+collection; load/release partitions: db+collection+partition) every combination per level of recorded create time x drop time in {absent,10,15,20,25,30} with t=20 (all 13 weak orderings x 4 presence patterns) x downstream probe answers {exists, absent} per level x main-call answer {ok, rejected, rejected while a drop at t+3 is recorded at level l}; plus the restart family where the drop times reach the writer through NewChannelWriter's start-up snapshot; observed applied/skipped/failed compared with the reference cascade; non-trivial = cases whose outcome is skip, or a probe decided"
 	states := c08ObjStates()
 	type gk struct{ g, k string }
 	var kinds []gk
@@ -326,6 +350,29 @@ func TestVerifC08Table(t *testing.T) {
 			}
 		}
 		rec(0, c08Case{Group: k.g, Kind: k.k})
+		// restart family: drop times (no create times) arrive through the constructor's snapshot
+		if levels > 0 {
+			ds := []uint64{0, 15, 20, 25}
+			var recC func(lv int, cs c08Case)
+			recC = func(lv int, cs c08Case) {
+				if lv == levels {
+					for pm := 0; pm < 1<<levels; pm++ {
+						c := cs
+						for l := 0; l < levels; l++ {
+							c.Exists[l] = pm&(1<<l) != 0
+						}
+						run(c)
+					}
+					return
+				}
+				for _, d := range ds {
+					c := cs
+					c.Objs[lv] = c08Obj{D: d}
+					recC(lv+1, c)
+				}
+			}
+			recC(0, c08Case{Group: k.g, Kind: k.k, Ctor: true})
+		}
 	}
 	res.Bounds["cases"] = idx
 }
